@@ -372,3 +372,7 @@ def run(ctx):
     r4_schema(ctx)
     r5_newest(ctx)
     r6_arity(ctx)
+
+
+from .selftest import for_families as _ff  # noqa: E402
+selftest = _ff(['panic', 'gate'])
